@@ -287,3 +287,108 @@ _mk_rw('read_global_var', 'convert_to_object', False)
 _mk_rw('write_global_var', 'convert_from_object', True)
 
 C12_FUNCS = ['fetch_global_var_addr', 'read_global_var', 'write_global_var', 'parse_error', 'write_ds', 'parse_sequel#bracket-loop']
+
+
+# ---------------------------------------------------------------------------------------------------------------
+# do_realize_lazy_struct_lock_held: the per-field size check of API-mode structs and unions
+
+from .layout import f_name, f_type, f_bits, f_off, SF_STD          # noqa: E402
+
+FLD = 'struct _cffi_field_s'
+OP_NOOP, OP_BITFIELD = 17, 19          # _CFFI_OP_NOOP, _CFFI_OP_BITFIELD: checked against the AST in props/C12.py
+
+
+@R.add
+class realize_c_type(Contract):
+    """builds (or fetches) the ctype for entry `index` of the type table -- assumed: a valid ctype, or NULL with an
+    exception; runs type-building code that does not touch the field table being read"""
+    name = 'realize_c_type'
+    trusted = True
+
+    def frame(self, c):
+        return Frame(err=True, all_raw=True)
+
+    def post(self, c):
+        return [('a valid ctype, or NULL with an exception',
+                 z3.If(c.result == 0, c.new.err != 0, z3.And(c.valid(c.result, 104), c.new.err == c.old.err)))]
+
+
+def _buildvalue(ex, st, args, n):
+    """Py_BuildValue("(sOin)", name, ctype, bitsize, offset): a new 4-tuple whose members are those values (ghost
+    functions item_name/type/bitsize/offset of the tuple, the ones PyArg_ParseTuple("O!O!|in") reads back), or NULL
+    with an exception"""
+    import ast as _ast
+    fmtnode = n['inner'][1]
+    while fmtnode.get('kind') in ('ImplicitCastExpr', 'ParenExpr'):
+        fmtnode = fmtnode['inner'][0]
+    if fmtnode.get('kind') != 'StringLiteral' or _ast.literal_eval(fmtnode['value']) != "(sOin)":
+        raise NotSupported("Py_BuildValue with another format")
+    t = ex.fresh('newtuple', B64)
+    e = ex.fresh('err_buildvalue', B64)
+    c = Ctx(ex, {}, st)
+    st.assume(z3.Implies(t == 0, e != 0))
+    st.assume(z3.Implies(t != 0, z3.And(c.valid(t, 56), f_type(t) == args[2], f_bits(t) == args[3], f_off(t) == args[4],
+                                        R.ghost('str_of_cstring', B64, B64)(args[1]) == f_name(t))))
+    st.err = z3.If(t == 0, e, st.err)
+    return t
+
+
+R.models['Py_BuildValue'] = _buildvalue
+R.models['_Py_BuildValue_SizeT'] = _buildvalue
+R.assumed['Py_BuildValue("(sOin)")'] = _buildvalue.__doc__
+R.inline |= {'PyList_SET_ITEM'}
+
+
+class LazyFieldLoop(Contract):
+    """do_realize_lazy_struct_lock_held, the loop over the field table of an API-mode struct OR UNION: ONE iteration.
+    A field whose offset the compiler measured (field_offset != -1) is accepted only if the size of its declared type
+    equals the size the compiler measured for it -- otherwise ffi.error -- for structs and unions alike; the list item
+    handed to the layout code carries the compiler's offset and the declared bit size"""
+    name = 'do_realize_lazy_struct_lock_held#field-loop'
+    function = 'do_realize_lazy_struct_lock_held'
+    loop_ordinal = 0
+
+    def fld(self, c, st):
+        fld = c['fld']
+        G = lambda f: c.field(st, fld, FLD, f)
+        return fld, G('field_type_op'), G('field_offset'), G('field_size'), G('name')
+
+    def pre(self, c):
+        st = c.old
+        fld, op, off, size, name = self.fld(c, st)
+        fields = c['fields']
+        return [('fld-valid', c.valid(fld, 32)), ('ct-valid', c.valid(c['ct'], 104)), ('builder-valid', c.valid(c['builder'], 120)),
+                ('the list has room for item i', z3.And(c.valid(fields, 40), c['i'] >= 0, c['i'] < BV(1 << 30, 32),
+                                                        c.valid(c.field(st, fields, 'PyListObject', 'ob_item') + z3.SignExt(32, c['i']) * 8, 8))),
+                ('module initialised: ffi.error exists', c.global_value(st, 'FFIError') != 0),
+                ('ffi.error is not one of the builtin exception classes', z3.And(*[c.global_value(st, 'FFIError') != exc(c.ex, nm_) for nm_ in ('NotImplementedError', 'MemoryError', 'TypeError')])),
+                ('no-pending-exception', st.err == 0)]
+
+    def witness(self, c):
+        fld, op, off, size, name = self.fld(c, c.old)
+        return {'field_type_op': op, 'field_offset': off, 'field_size': size,
+                'ct_flags': c.field(c.old, c['ct'], 'CTypeDescrObject', 'ct_flags')}
+
+    def post(self, c):
+        st0, st1 = c.old, c.new
+        fld, op, off, size, name = self.fld(c, st0)
+        checked = off != BV(-1, 64)
+        arr = c.field(st0, c['fields'], 'PyListObject', 'ob_item')
+        item = c.raw(st1, arr + z3.SignExt(32, c['i']) * 8, 8)
+        ctf = f_type(item)
+        isbf = z3.Extract(7, 0, op) == OP_BITFIELD
+        return [('a field the compiler measured is accepted only if its declared type has the measured size',
+                 z3.Implies(checked, c.field(st1, ctf, 'CTypeDescrObject', 'ct_size') == size)),
+                ('the list item carries the realized type, the compiler\'s offset and the declared bit size (-1: none)',
+                 z3.And(item != 0, f_off(item) == off,
+                        f_bits(item) == z3.If(isbf, z3.Extract(31, 0, size), BV(-1, 32)))),
+                ('the loop advances', z3.And(c.local(st1, 'i') == c['i'] + 1, c.local(st1, 'fld') == fld + c.tu.layout(c.tu.parse_type(FLD).name)[0]))]
+
+    def post_return(self, c):
+        st0, st1 = c.old, c.new
+        return [('the loop is left early only with -1 and an exception', z3.And(c.result == BV(-1, 32), st1.err != 0))]
+
+
+R.add(LazyFieldLoop)
+from .base import exc                   # noqa: E402
+C12_FUNCS.append('do_realize_lazy_struct_lock_held#field-loop')
